@@ -219,8 +219,26 @@ tc_member_desc(int32 f, int32 S, int32 tag, int32 ref, char *buf, size_t cap)
                 SDendaccess(s);
         }
     }
-    else if (tag == DFTAG_RIG || tag == DFTAG_RI)
-        snprintf(buf, cap, "rig");
+    else if (tag == DFTAG_RIG || tag == DFTAG_RI) {
+        /* which of the two tags the annotation names is part of the content; the image is identified by its name */
+        int32 G = GRstart(f), nimg = 0, nat = 0;
+        snprintf(buf, cap, tag == DFTAG_RI ? "ri" : "rig");
+        if (G != FAIL && GRfileinfo(G, &nimg, &nat) != FAIL)
+            for (int k = 0; k < nimg; k++) {
+                int32 ri = GRselect(G, k);
+                if (ri == FAIL)
+                    continue;
+                if (GRidtoref(ri) == (uint16)ref) {
+                    char  nm[H4_MAX_GR_NAME + 1] = "";
+                    int32 nc, nt, il, dm[2], na;
+                    if (GRgetiminfo(ri, nm, &nc, &nt, &il, dm, &na) != FAIL)
+                        snprintf(buf, cap, "%s:%s", tag == DFTAG_RI ? "ri" : "rig", nm);
+                }
+                GRendaccess(ri);
+            }
+        if (G != FAIL)
+            GRend(G);
+    }
     return buf;
 }
 
@@ -601,7 +619,7 @@ tc_diffkind(const char *msg, char *out, size_t cap)
 /* single-point mutation descriptor: object kind + index + which element; -1 = none */
 typedef struct {
     int kind; /* 0 none, 1 SDS data, 2 SDS attr, 3 global attr, 4 vdata value, 5 GR pixel, 6 vdata attr, 7 GR attr, 8 add an object, 9 remove an object,
-                 10 dimension scale value, 11 vgroup attr */
+                 10 dimension scale value, 11 vgroup attr, 12 data sets created in another order (content unchanged) */
     int obj, pos;
 } tc_mut;
 
@@ -709,8 +727,10 @@ tc_generate(const char *path, int kind, tc_mut m)
         int32 S = SDstart(path, DFACC_CREATE);
         if (S == FAIL)
             return -1;
-        for (int pos = 0; pos < npos; pos++) {
-            int k = tc_sds_index(kind, pos);
+        for (int it = 0; it < npos; it++) {
+            /* mutation 12: the same data sets, created in another order (the last one first) */
+            int pos = m.kind == 12 ? (it + npos - 1) % npos : it;
+            int k   = tc_sds_index(kind, pos);
             if (m.kind == 9 && m.obj == pos)
                 continue; /* removed object */
             int32 dm[3] = {TC_SDS[k].dims[0], TC_SDS[k].dims[1], TC_SDS[k].dims[2]}, st[3] = {0, 0, 0};
@@ -821,6 +841,7 @@ tc_generate(const char *path, int kind, tc_mut m)
     int32 f = Hopen(path, want_sd ? DFACC_RDWR : DFACC_CREATE, 0);
     if (f == FAIL)
         return -1;
+    int32 imgref[2] = {0, 0};
     if (want_gr) {
         int32 G = GRstart(f);
         for (int k = 0; k < 3; k++) {
@@ -855,6 +876,17 @@ tc_generate(const char *path, int kind, tc_mut m)
         }
         int32 gglob = 42;
         GRsetattr(G, "gr_global", DFNT_INT32, 1, &gglob);
+        GRend(G);
+        G = GRstart(f);
+        for (int k = 0; k < 2; k++) {
+            char nm[16];
+            snprintf(nm, sizeof nm, "image_%d", k);
+            int32 ix = GRnametoindex(G, nm), ri = ix != FAIL ? GRselect(G, ix) : FAIL;
+            if (ri != FAIL) {
+                imgref[k] = GRidtoref(ri);
+                GRendaccess(ri);
+            }
+        }
         GRend(G);
     }
     Vstart(f);
@@ -955,6 +987,20 @@ tc_generate(const char *path, int kind, tc_mut m)
             ANendaccess(a);
             a = ANcreate(A, DFTAG_NDG, (uint16)sdsref[first], AN_DATA_DESC);
             ANwriteann(a, "description of the first data set", 33);
+            ANendaccess(a);
+        }
+        /* raster images are annotated under either of two tags (raster image, raster image group) */
+        if (imgref[0] > 0) {
+            a = ANcreate(A, DFTAG_RI, (uint16)imgref[0], AN_DATA_LABEL);
+            ANwriteann(a, "label of image 0 (image tag)", 28);
+            ANendaccess(a);
+            a = ANcreate(A, DFTAG_RI, (uint16)imgref[0], AN_DATA_DESC);
+            ANwriteann(a, "description of image 0 (image tag)", 34);
+            ANendaccess(a);
+        }
+        if (imgref[1] > 0) {
+            a = ANcreate(A, DFTAG_RIG, (uint16)imgref[1], AN_DATA_LABEL);
+            ANwriteann(a, "label of image 1 (group tag)", 28);
             ANendaccess(a);
         }
         if (vgref_top) {
